@@ -159,6 +159,7 @@ def strat_chan(tier):
         "labels": st.just(labs),
         "ch": st.lists(_chan(len(labs)), min_size=len(labs), max_size=len(labs)),
         "perm": st.permutations(list(range(len(labs)))),
+        "perms": st.lists(st.permutations(list(range(len(labs)))), min_size=5, max_size=5),
         "nm": st.sampled_from([1.0, 1.33, 1.5]),
         "shape": st.tuples(st.integers(1, 5), st.integers(1, 5)).map(list),
         "spacing": gen.rounded(0.05, 0.5, 3),
@@ -196,7 +197,11 @@ def run_chan(case):
     radius = {l: val(l, "x") / kref for l in labs}       # radii in length units (fixed reference k so 'scalar' is one number)
     index = {l: (complex(*val(l, "m")) if val(l, "m")[1] else val(l, "m")[0]) * nm for l in labs}
 
-    def as_form(form, per_label, vector=False):
+    # every quantity lists the channels in its own order (dictionaries and labelled arrays are matched by
+    # label, so the orders must not matter, neither relative to the detector nor relative to each other)
+    orders = [[labs[i] for i in pm] for pm in case.get("perms", [case["perm"]] * 5)]
+
+    def as_form(form, per_label, vector=False, order=order):
         if form == "scalar":
             return per_label[labs[0]]
         if form == "dict":
@@ -204,11 +209,11 @@ def run_chan(case):
         if vector:
             return xr.concat([to_vector(per_label[l]) for l in order], xr.DataArray(order, dims="illumination", name="illumination"))
         return xr.DataArray([per_label[l] for l in order], dims="illumination", coords={"illumination": order})
-    wl = as_form(forms["wl_form"], {l: val(l, "wl") for l in labs})
-    pol = as_form(forms["pol_form"], {l: tuple(val(l, "pol")) for l in labs}, vector=True)
-    n = as_form(forms["n_form"], index)
-    r = as_form(forms["r_form"], radius)
-    alpha = as_form(forms["alpha_form"], {l: val(l, "alpha") for l in labs})
+    wl = as_form(forms["wl_form"], {l: val(l, "wl") for l in labs}, order=orders[0])
+    pol = as_form(forms["pol_form"], {l: tuple(val(l, "pol")) for l in labs}, vector=True, order=orders[1])
+    n = as_form(forms["n_form"], index, order=orders[2])
+    r = as_form(forms["r_form"], radius, order=orders[3])
+    alpha = as_form(forms["alpha_form"], {l: val(l, "alpha") for l in labs}, order=orders[4])
     sp = case["spacing"]
     shape = tuple(case["shape"])
     c = case["center"]
@@ -265,7 +270,8 @@ def run_chan(case):
         if abs(w - val(l, "wl")) > 0:
             return Outcome(failure("channel_metadata", "result metadata has wavelength %r for channel %r, expected %r" % (w, l, val(l, "wl"))), True, labels_out)
     differing = sum(len({repr(val(l, key)) for l in labs}) > 1 for key in ("wl", "pol", "m", "x"))
-    return Outcome(None, differing >= 2 and list(order) != list(labs), labels_out, metrics={"channel_rel": worst})
+    mixed = len({tuple(o_) for o_ in orders[:2]}) > 1
+    return Outcome(None, differing >= 2 and (list(order) != list(labs) or mixed), labels_out + (["mixed_key_orders"] if mixed else []), metrics={"channel_rel": worst})
 
 
 SUBCHECKS = [
@@ -279,7 +285,7 @@ SUBCHECKS = [
         "Multisphere (tight), MieLens, AberratedMieLens, Lens(Mie), Lens(Tmatrix); non-trivial = both components non-zero",
         tolerances=LIN_TOL),
     Sub("multi_channel", strat_chan, run_chan, 1600, 30000,
-        "2-3 illumination labels in non-sorted orders (incl. integers), dictionaries keyed in a permuted order; "
+        "2-3 illumination labels in non-sorted orders (incl. integers), every dictionary / labelled array keyed in its own independently permuted order; "
         "wavelength/polarization/index given as dict, labelled DataArray or scalar; radius/scaling as dict or scalar; "
         "detector = zero grid, image with values, or grid already carrying the optics; holo/field/intensity; every "
         "channel must equal the single-channel call; non-trivial = >=2 quantities differ between channels and key order "
